@@ -140,7 +140,7 @@ def st_keywords(draw, count, limit):
     if base[0] == 0:
         base = b"\x01" + base[1:]
     add(base)
-    fam = draw(st.sampled_from(["none", "none", "prefix", "suffix", "bitflip", "trailing_nul", "maxlen", "ascii", "framing", "utf8"]))
+    fam = draw(st.sampled_from(["none", "none", "prefix", "suffix", "bitflip", "trailing_nul", "maxlen", "ascii", "framing", "utf8", "long"]))
     if fam == "prefix":
         add(base + b"x")
         add(base[:-1])
@@ -166,6 +166,11 @@ def st_keywords(draw, count, limit):
         for b in (b"\x80\x04\x95", b".", b"\x10" * min(limit, 16), b"a\x00b", b"a\x00", b"\xff", b"\xff\xff", b"\x01", b"\x01\x00",
                   b"1", b"2", b"\x01\x01", b"a|b", b"a,b", b"[]", b"\xef\xbb\xbfkw"):
             add(b[:limit])
+    elif fam == "long":
+        # longer than one block of the hash functions behind the PRFs (64 bytes), and exactly at / around it
+        for n in (65, 64, 63, 100, 128):
+            if n <= limit:
+                add((base * (n // len(base) + 1))[:n])
     elif fam == "utf8":
         for s in ("\u00e4", "\u00e4\u00df", "\u6f22\u5b57", "\U0001f642", "a\u0308", "\u00c4", "\ufeffkw", "kw\u200b"):
             add(s.encode("utf-8")[:limit])
@@ -256,6 +261,11 @@ def absent_keywords(db_kws, limit, extra):
         for s in (1, n, n + 1, n + 2):
             add(((1 << (8 * limit)) - 1 - s).to_bytes(limit, "big"), "top_of_keyword_space")
         add(b"\x01" + b"\x00" * (limit - 1), "bottom_of_max_length")
+    for w in sorted(db_kws, key=len, reverse=True)[:2]:
+        # digests of a stored keyword (what a PRF that pre-hashes long inputs would really be keyed with)
+        for name in ("sha1", "sha256", "md5"):
+            d = hashlib.new(name, w).digest()
+            add(d if d[0] else b"\x01" + d[1:], "digest_of_stored_keyword")
     for w in db_kws[:2]:
         v = int.from_bytes(w, "big")
         for d in (1, -1):
@@ -272,7 +282,7 @@ def absent_keywords(db_kws, limit, extra):
 class Desc:
     name = ""
     result_is_set = False
-    kw_limit_default = 40
+    kw_limit_default = 100   # no limit in the code; longer than one hash block (64 bytes) matters for PRF-keyed labels
 
     def st_config(self, draw):  # -> config dict in the valid grid
         raise NotImplementedError
